@@ -212,9 +212,9 @@ const char* const kFlagAttr[] = {"", "allow-modified-outputs", "allow-missing-in
 int flagBase(int f) { return f >= 3 ? f - 2 : f; }
 bool flagAll(int f) { return f >= 3; }
 // kinds (the control word of vcmd's .vctl): kill-before is thorough only
-const int kNumKinds = 4;
-const char* const kKinds[] = {"fail-before", "fail-after", "kill-after", "kill-before"};
-const char* const kCtlWord[] = {"fail-before", "fail-after", "kill-after", "kill"};
+const int kNumKinds = 5;
+const char* const kKinds[] = {"fail-before", "fail-after", "kill-after", "term-after", "kill-before"};
+const char* const kCtlWord[] = {"fail-before", "fail-after", "kill-after", "sig-after 15", "kill"};
 
 std::string yq(const std::string& s) {
   std::string o = "\"";
@@ -863,7 +863,7 @@ int main(int argc, char** argv) {
       "C10 keep-going: the client is a BuildSystemFrontendDelegate whose hadCommandFailure() counts and does not cancel (SwiftPM / C API style); every build is a new "
       "BuildSystemFrontend on the same SQLite file; 1 lane = useSerialBuild (one lane of the lane based queue), otherwise schedulerLanes lanes",
       "C10 keep-going: 'fails' = vcmd directed through the control file: fail-before exits 1 before writing anything, fail-after writes ALL outputs completely and then exits 1, "
-      "kill-after writes all outputs and then raises SIGKILL on itself (kill-before: before writing; both are recorded as CancelledCommand results); the flag "
+      "kill-after writes all outputs and then raises SIGKILL on itself (kill-before: before writing; both are recorded as CancelledCommand results), term-after writes all outputs and then dies of SIGTERM (a fatal signal that is not an interrupt: a failed command); the flag "
       "(allow-modified-outputs / allow-missing-inputs) is put on every command of the failing subset, in the -on-all variants on every shell command (consumers included)",
       "C10 keep-going: 'the build reports failure' = BuildSystemFrontend::build() returns false; 'executed' = the command's process started (line in vcmd's exec.log); "
       "a command whose recorded result is a failure and which the next build does not re-attempt still counts as failed in that build (its consumers must not run, the build must not report success)",
@@ -916,7 +916,7 @@ int main(int argc, char** argv) {
   // ------------------------------------------------------------ work list, simplest first
   std::vector<int> laneSet = thorough ? std::vector<int>{1, 2, 3, 4} : std::vector<int>{1, 4};
   std::vector<int> priorSet{0, 1};
-  const int nkinds = thorough ? 4 : 3;
+  const int nkinds = thorough ? 5 : 4;
   unsigned maxSize = thorough ? 4 : 2;
   std::vector<Item> items;
   size_t ndesc = 0;
@@ -958,7 +958,7 @@ int main(int argc, char** argv) {
       args.tier + "): " + std::to_string(ndesc) + " descriptions with <= 4 shell commands {chain, diamond, two independent sub-graphs sharing a source, two-output command, virtual-node edge, "
       "phony virtual gate" + (thorough ? ", produced directory, three producers joined, virtual-only outputs, trailing phony aggregate" : "") +
       "} x flag {none, allow-modified-outputs, allow-missing-inputs on the failing commands, the same two on EVERY shell command} x EVERY non-empty subset of shell commands" +
-      (thorough ? "" : " of size 1 and 2") + " directed to fail x kind {fail-before, fail-after, kill-after" + (thorough ? ", kill-before" : "") + "} x lanes " +
+      (thorough ? "" : " of size 1 and 2") + " directed to fail x kind {fail-before, fail-after, kill-after, term-after" + (thorough ? ", kill-before" : "") + "} x lanes " +
       (thorough ? "{1, 2, 3, 4}" : "{1, 4}") + " x prior successful build {no, yes}" +
       ". evaluations = scenarios run; every tuple is enumerated once so each is distinct; distinct_nontrivial = scenarios in whose first failing build at least one directed command "
       "was really executed and failed (measured from exec.log)";
